@@ -656,8 +656,73 @@ def mk_refuse(obj, dtype=None, layout=None):
     """the object handed to the implementation: obj itself, or the array of the given element type and layout"""
     if dtype is None:
         return obj
+    if dtype == "object":
+        # an array of Python objects (the entries stay what they are: text, bytes, Python numbers)
+        a = np.empty((len(obj), len(obj[0])), dtype=object)
+        for i, r in enumerate(obj):
+            for j, x in enumerate(r):
+                a[i, j] = x
+        return _layout(a, layout or "C")
     a = np.array(obj, dtype=np.float64).astype(np.dtype(dtype))
     return _layout(a, layout or "C")
+
+
+# arrays of Python objects.  Entries that are text or bytes are not numbers, whatever float() would make of them: such a
+# matrix must be refused (labels object-text*).  An object array all of whose entries are genuine Python numbers (int of any
+# size, float, Fraction, Decimal, bool) is numeric: the code at /repo HEAD refuses it with ValueError as well (the element
+# type is not a numpy number type); the refusal clause does not demand that, so for the label in NUMERIC_OBJECT a solved call
+# is accepted too, and only a crash (any other exception) or a hang is a failure.
+NUMERIC_OBJECT = {"object-numbers"}
+_TEXT_FORMS = [lambda v: str(v), lambda v: str(float(v)), lambda v: " %d " % v, lambda v: "%de0" % v, lambda v: "%+d" % v,
+               lambda v: str(v).encode(), lambda v: (" %d\n" % v).encode(), lambda v: "%d.0" % v,
+               lambda v: "".join(chr(0x660 + int(ch)) if ch.isdigit() else ch for ch in str(v)),      # Arabic-Indic digits
+               lambda v: "%.1e" % v, lambda v: ("%d.50" % v).encode(), lambda v: "0x%x" % abs(v), lambda v: "1_0"]
+
+
+def _refusal_ok(lab, out):
+    return out == ("Err", "ValueError") or (lab in NUMERIC_OBJECT and out == ("Ok",))
+
+
+def object_cases(ctx):
+    """object-dtype 2-d arrays: text / bytes entries that float() would parse (all entries, one among numbers, a random
+    subset; square, wide, tall, 1 x 1; every memory layout) and arrays of genuine Python numbers"""
+    from decimal import Decimal
+    rng = ctx.rng
+    cases = [("object-text", [["4", "1", "3"], ["2", "0", "5"], ["3", "2", "2"]], None, "object", "C"),
+             ("object-text-one", [[4, 1, 3], [2, "0", 5]], None, "object", "C"),
+             ("object-text", [[b"7", b"1"], [b"2", b"9"]], None, "object", "C"),
+             ("object-text", [["0"]], None, "object", "C"),
+             ("object-text-one", [[1.5, 2.0], [3.0, b"4"], [0.0, 1.0]], None, "object", "C")]
+    for t in range(72 if ctx.thorough else 24):
+        n, m = rng.randint(1, 5), rng.randint(1, 5)
+        if rng.random() < 0.5:
+            M = [[rng.randint(-3, 9) for _ in range(m)] for _ in range(n)]
+        else:
+            M = [[rng.choice([float(rng.randint(-3, 9)), rng.randint(0, 9) / 4, rng.randint(-3, 9)]) for _ in range(m)] for _ in range(n)]
+        mode = t % 3
+        if mode == 0:                                             # every entry is text
+            f = rng.choice(_TEXT_FORMS[:6]) if rng.random() < 0.6 else None
+            M = [[(f or rng.choice(_TEXT_FORMS))(int(x)) for x in r] for r in M]
+            lab = "object-text"
+        elif mode == 1:                                           # one text entry among numbers
+            i, j = rng.choice([(0, 0), (n - 1, m - 1), (rng.randrange(n), rng.randrange(m))])
+            M[i][j] = rng.choice(_TEXT_FORMS)(int(M[i][j]))
+            lab = "object-text-one"
+        else:                                                     # a random non-empty subset
+            pos = [(i, j) for i in range(n) for j in range(m)]
+            for i, j in rng.sample(pos, rng.randint(1, len(pos))):
+                M[i][j] = rng.choice(_TEXT_FORMS)(int(M[i][j]))
+            lab = "object-text-some"
+        cases.append((lab, M, None, "object", rng.choice(LAYOUTS)))
+    for t in range(24 if ctx.thorough else 8):
+        n, m = rng.randint(1, 4), rng.randint(1, 4)
+        mk = [lambda: rng.randint(-3, 9), lambda: rng.randint(-3, 9) + (1 << rng.choice([64, 70, 200])),
+              lambda: Fraction(rng.randint(-9, 30), rng.randint(1, 7)), lambda: Decimal(rng.randint(-30, 90)) / Decimal(10),
+              lambda: rng.randint(0, 9) / 4, lambda: bool(rng.getrandbits(1))]
+        one = mk[t % len(mk)]
+        M = [[(one if rng.random() < 0.7 else rng.choice(mk))() for _ in range(m)] for _ in range(n)]
+        cases.append(("object-numbers", M, None, "object", rng.choice(LAYOUTS)))
+    return cases
 
 
 def _rcase(lab, obj, dtype=None, layout=None):
@@ -706,6 +771,7 @@ def refusal_cases(ctx):
     cases.append(("mixed-str", [[1, "2"], [3, 4]], None))
     cases.append(("dict", {"a": 1}, None))
     cases.append(("nested-none", [[1.0, None], [2.0, 3.0]], None))
+    cases.extend(object_cases(ctx))
     return cases
 
 
@@ -871,7 +937,7 @@ def correspond(ctx):
         out = impl_refuse(mk_refuse(obj, *dl))
         corr.count("refusal")
         corr.hit("refusal_" + lab)
-        if out != ("Err", "ValueError"):
+        if not _refusal_ok(lab, out):
             corr.failures.append({"stream": "oracle-refusal", "case": _rcase(lab, obj, *dl),
                                   "what": "non-finite / non-numeric / non-matrix input was not refused with ValueError",
                                   "observed": list(out)})
@@ -989,9 +1055,10 @@ def search(ctx, corr, reasons):
 def replay(ctx, rp):
     c = rp["case"]
     if c.get("kind") == "refuse":
-        obj = eval(c["matrix"], {"inf": float("inf"), "nan": float("nan")})
+        from decimal import Decimal
+        obj = eval(c["matrix"], {"inf": float("inf"), "nan": float("nan"), "Fraction": Fraction, "Decimal": Decimal})
         out = impl_refuse(mk_refuse(obj, c.get("dtype"), c.get("layout")))
-        return {"input": c, "implementation": list(out), "fails": out != ("Err", "ValueError")}
+        return {"input": c, "implementation": list(out), "fails": not _refusal_ok(c.get("label"), out)}
     if c.get("history"):
         # the failure needs the earlier calls: all of them, then the case, in one fresh interpreter
         last = {k: v for k, v in c.items() if k != "history"}
